@@ -47,7 +47,7 @@ PROPS = {
     ),
     "C04": dict(
         src=[("props/c04.cpp", 6)],
-        quick_cases=150, thorough_cases=5000, procs=16,
+        quick_cases=150, thorough_cases=1200, procs=16,
         rule="cases are (type, tangent a[, point v]) from a tape with rotation magnitudes stratified around the small-angle "
              "switch (1e-12..pi, up to 50 for dr_exp) and translations up to 1e3; non-trivial = non-commutative type with "
              "non-zero rotation part; distinct = hash of decoded values",
@@ -59,7 +59,7 @@ PROPS = {
     ),
     "C05": dict(
         src=[("props/c05.cpp", 4)],
-        quick_cases=120, thorough_cases=3000, procs=16,
+        quick_cases=120, thorough_cases=800, procs=16,
         rule="cases are (type, tangent a) from a tape (rotation magnitude stratified around the small-angle switch, capped at "
              "pi-1e-3; translations up to 1e3), generated polynomial matrix factors (size 1..6, 1..6 variables) and generated "
              "cubic polynomial maps f, g of static and dynamic sizes with dense/sparse outer Jacobian; non-trivial = "
@@ -160,7 +160,7 @@ PROPS = {
     ),
     "C11": dict(
         src=[("props/c11.cpp", 5)],
-        quick_cases=60, thorough_cases=3000, procs=16,
+        quick_cases=60, thorough_cases=500, procs=16,
         rule="cases are (degree K=1..6, group in {SO3, SE2, SE3, Bundle<SO3,R2>, R3}, cumulative basis in {Bernstein, B-spline, generated matrix}, u in {0, 1} or (0,1), "
              "differences v_i with rotation norm < pi-0.1, anchor g0) from a tape; non-trivial = 0 < u < 1 and >= 2 non-commuting differences; distinct = hash of decoded values",
         technique="property-based testing against products of matrix exponentials carried as order-3 matrix Taylor polynomials (exact value / velocity / acceleration / jerk) and central differences of that reference for the Jacobians",
@@ -171,7 +171,7 @@ PROPS = {
     "C12": dict(
         fuzz=['c12.history<K=3,SO3>', 'c12.history<K=2,SE2>', 'c12.history<K=3,R2>'], fuzz_seconds=150,
         src=[("props/c12.cpp", 5)],
-        quick_cases=100, thorough_cases=2500, procs=16, timeout=1500,
+        quick_cases=100, thorough_cases=800, procs=16, timeout=1500,
         rule="cases are histories of 1..12 operations {+=, operator+, concat_global, copy, crop(local|global)} on splines built by Spline(T,V), ConstantVelocity, ConstantVelocityGoal, FixedCubic "
              "(durations 1e-2..1e2, up to 8 segments), crop end points from {0/t_max, beyond, exactly on a knot, inside the first segment, inside any segment}; after every operation the spline is evaluated at "
              "knots, knots +-1 ulp, interiors and out-of-range times; degrees 1..5; groups SO3, SE2, SE3, SO2, R2, R3; non-trivial = history with a crop starting in a later segment, a non-localised crop over >= 2 segments, or degree != 3",
@@ -183,7 +183,7 @@ PROPS = {
     "C13": dict(
         fuzz=['c13.curve<K=3,SO3>', 'c13.curve<K=1,SE2>'], fuzz_seconds=150,
         src=[("props/c13.cpp", 5)],
-        quick_cases=50, thorough_cases=2500, procs=16,
+        quick_cases=50, thorough_cases=350, procs=16,
         rule="cases are (degree K=1..6, group in {SO3, SE2, SE3, Bundle<SO3,R2>, R3}, N=K+1..30 control points from a random walk with steps < 1.5 rad, t0 in +-1e3, dt in 1e-3..1e2) from a tape; "
              "evaluation at interiors, at interior knots from both sides (1..16 ulp), at t_min/t_max and outside; a replaced control point for locality; a left factor h for equivariance; "
              "non-trivial = evaluation within 16 ulp of an interior knot or a locality case; distinct = hash of decoded values",
@@ -244,7 +244,7 @@ PROPS = {
     ),
     "C18": dict(
         src=[("props/c18.cpp", 1)], san="thread",
-        quick_cases=3, quick_rounds=2, thorough_cases=6, thorough_rounds=14, procs=16, case_timeout=1500,
+        quick_cases=3, quick_rounds=2, thorough_cases=6, thorough_rounds=8, procs=16, case_timeout=1500,
         engines=["rapidcheck (workload generation)", "ThreadSanitizer (g++ -fsanitize=thread)"],
         rule="cases are thread workloads: 2..16 threads released together by a spin barrier, each running a generated list of 1..5 const operations (14 kinds: group / tangent / Bundle / Galilei functions, "
              "rplus/rminus/dof on shared const SubManifold, AnyManifold, std::vector and variant, Spline and BSpline evaluation, sparse derivatives into thread-private outputs, diff::dr, minimize, fit_spline/fit_bspline) "
